@@ -139,6 +139,11 @@ func init() {
 			}
 		}
 		cy, ok := y.ConstInt()
+		if !ok {
+			// the cost of Exp grows with the exponent: an exponent the input can push to 2^30 is a candidate hang,
+			// replayed natively under a time limit like a step-budget exhaustion
+			ex.oblige("hang", "big.Int.Exp with an input-controlled exponent", fr, pos, ex.b.Lt(y, ex.b.Int(smt.Pow2(30))))
+		}
 		if !ok || !cy.IsInt64() || cy.Int64() > 4096 {
 			panic(ex.unsupported("big.Int.Exp with a symbolic or huge exponent"))
 		}
